@@ -111,6 +111,15 @@ CLAIMED = {
         note="floats modelled as reals; concrete neighbour topologies and boxes; phases through the structural cache; files "
              "written by the correlation variant are recorders in the symbolic run and real files in replays.",
         ref="DESIGN.md C15"),
+    "C11": dict(
+        text="Bounded symbolic model checking of HessianMatrix.diagonalize_hessian: the saved matrix is decided equal, entry by "
+             "entry, to M^-1/2 (d2U/dr dr) M^-1/2 of the documented (force-shifted) pair energy obtained by term differentiation, "
+             "for all positions, unequal masses and parameter matrices, LJ / IPL / harmonic / Hertz, both sides of every cut-off "
+             "test; symmetry, translation sum rule under full periodicity, omega = sqrt(lambda) and 0 < PR <= 1 from the eigh contract.",
+        note="floats modelled as reals; N=2 (3 thorough); np.linalg.eigh replaced by its contract (fresh eigenvalues, unit-norm "
+             "columns) in the symbolic run, real LAPACK in replays; finite-difference confirmation is not a solver technique and "
+             "is replaced by 30-digit numerical differentiation in replays only.",
+        ref="DESIGN.md C11"),
 }
 
 NOT_APPLICABLE = {
